@@ -161,7 +161,7 @@ def main(run):
         (pk / f"M{k}.hy").write_text(render(rec["prog"]))
         names.append(f"{PKG}.M{k}")
     env = {k: v for k, v in os.environ.items() if k not in ("PYTHONDONTWRITEBYTECODE",)}
-    env.update(PYTHONPATH=str(d), HY_MESSAGE_WHEN_COMPILING="1", PYTHONPYCACHEPREFIX=str(d / "pyc"))
+    env.update(PYTHONPATH=os.pathsep.join([str(d)] + [x for x in [os.environ.get("PYTHONPATH")] if x]), HY_MESSAGE_WHEN_COMPILING="1", PYTHONPYCACHEPREFIX=str(d / "pyc"))
     subprocess.run([PY, "-c", f"import hy, hy.core.hy_repr, {PKG}.S, {PKG}.S2"], env=env, capture_output=True)
     nb = 16
     batches = [names[i::nb] for i in range(nb)]
